@@ -34,8 +34,7 @@ CLAIMED = {
               "(sound_callback_preserves_curve). For arcs_to_cubics and the shapes the semantic half is "
               "carried by the Spec-judged search."),
         note=("Trusted: Lean kernel; propext/Classical.choice/Quot.sound; Spec/PathInterp.lean, Spec/Shapes.lean; translator; "
-              "harness; F64 ntos/round bridge. One recorded finding (smooth shorthand directly after an arc in "
-              "SVGPath.arcs_to_cubics) and two repaired defects, see known_findings.json."),
+              "harness; F64 ntos/round bridge. Three repaired defects (41546f5, 169f23a, b4525fa), see known_findings.json."),
         technique="Lean 4 proof (induction over the walk; simulation of the walk by the path interpreter) + d-string correspondence + Spec.interp-judged search",
         ref="DESIGN.md §4 C09"),
     "C10": dict(
